@@ -8,7 +8,7 @@ from tools.props import c04
 ID = 'C07'
 TARGETS = ['MindsVerif.Props.C07']
 THEOREMS = ['MindsVerif.Props.C07.' + n for n in (
-    'C07_std', 'C07_mysql', 'C07_structure', 'C07_tostring_codec', 'C07_tostring_partial', 'C07_witness_mysql', 'C07_witness_mysql_value',
+    'C07_std', 'C07_mysql', 'C07_codec_for_target', 'C07_paths', 'C07_structure', 'C07_tostring_codec', 'C07_tostring_partial', 'C07_witness_mysql', 'C07_witness_mysql_value',
     'C07_witness_tostring')]
 ASSUME = [
     'standard-SQL string literal rules (LitRender.stdLex: only the doubled quote is special) — validated in this run against sqlite3 '
@@ -91,10 +91,55 @@ def build(position, c):
 _frames = {}
 
 
+_PATHS = {}
+_TARGET = {}
+
+
+def ctor_arg(dialect):
+    """constructor argument of a construction path: a plain dialect name, or a label name:/class:/url: of
+    tools/harness/renderpaths.py"""
+    if ':' not in dialect:
+        return dialect
+    if not _PATHS:
+        from tools.harness import renderpaths
+        _PATHS.update(renderpaths.construction_paths())
+    return _PATHS[dialect]
+
+
+def new_renderer(dialect):
+    from mindsdb_sql.render.sqlalchemy_render import SqlalchemyRender
+    return SqlalchemyRender(ctor_arg(dialect))
+
+
+def bs_target(dialect):
+    """the TARGET engine of this construction path reads backslash as an escape (MySQL family incl. MariaDB);
+    decided from SQLAlchemy's class hierarchy, not from the library"""
+    if dialect not in _TARGET:
+        from tools.harness import renderpaths
+        r = new_renderer(dialect)
+        _TARGET[dialect] = (renderpaths.backslash_target(r), r.dialect.name)
+    return _TARGET[dialect][0]
+
+
+_CODEC = {}
+
+
+def path_codec(dialect):
+    """codec the live renderer was observed to use for this construction path (the probe that also generates
+    Gen/RenderPaths.lean): True = MySQL spelling (backslashes doubled).  The `render` correspondence checks that the path
+    uses exactly `renderLiteral <this codec>` for every value; that the codec is the one the target needs is the Lean
+    obligation C07_paths and the probe's reader."""
+    if not _CODEC:
+        from tools.harness import renderpaths
+        for (label, accepted, dname, target, codec) in renderpaths.probe_all():
+            if accepted:
+                _CODEC[label] = codec == 'mysql'
+    return _CODEC[dialect if ':' in dialect else 'name:' + dialect]
+
+
 def render(dialect, position, value):
     from mindsdb_sql.parser.ast import Constant
-    from mindsdb_sql.render.sqlalchemy_render import SqlalchemyRender
-    return SqlalchemyRender(dialect).get_string(build(position, Constant(value)), with_failback=False)
+    return new_renderer(dialect).get_string(build(position, Constant(value)), with_failback=False)
 
 
 def frame(dialect, position):
@@ -122,7 +167,7 @@ def probe_render(dialect, position, v):
         return None, dict(kind='render', desc='rendering Constant(%r) for %s/%s raises %s' % (v, dialect, position, type(e).__name__),
                           dialect=dialect, position=position, value=v, classes=[], **{'class': 'render-exc/%s' % type(e).__name__})
     pre, suf = frame(dialect, position)
-    reader = mysql_lex if dialect == 'mysql' else std_lex
+    reader = mysql_lex if bs_target(dialect) else std_lex
     ok = sql.startswith(pre)
     lit = None
     if ok:
@@ -134,9 +179,11 @@ def probe_render(dialect, position, v):
             lit = sql[len(pre):]
     if ok:
         return lit, None
-    cls = ['mysql-backslash'] if dialect == 'mysql' and '\\' in v else []
+    cls = []
+    if bs_target(dialect) and '\\' in v:
+        cls = ['mariadb-backslash'] if _TARGET[dialect][1] == 'mariadb' else ['mysql-backslash']
     return lit, dict(kind='render', desc='%s rendering of Constant(%r) in %s position is %r: the %s reader does not read the value back / structure changes'
-                     % (dialect, v, position, sql, 'MySQL' if dialect == 'mysql' else 'standard-SQL'), dialect=dialect,
+                     % (dialect, v, position, sql, 'MySQL' if bs_target(dialect) else 'standard-SQL'), dialect=dialect,
                      position=position, value=v, sql=sql, classes=cls, **{'class': 'render/%s/%s' % (dialect, '+'.join(cls) or 'NEW')})
 
 
@@ -338,14 +385,14 @@ def probe_typed(dialect, position, values, path, renderer=None):
         if frame(dialect, position) is None:
             return None
         from mindsdb_sql.render.sqlalchemy_render import SqlalchemyRender
-        r = renderer or SqlalchemyRender(dialect)
+        r = renderer or new_renderer(dialect)
         try:
             sql = r.get_string(build_multi(position, values), with_failback=False)
         except Exception as e:
             sql, lits = '%s: %s' % (type(e).__name__, str(e)[:100]), None
         else:
             lits = extract_literals(position, sql)
-        reader = mysql_lex if dialect == 'mysql' else std_lex
+        reader = mysql_lex if bs_target(dialect) else std_lex
         dd = dialect
     else:
         sql = build_multi(position, values, null_node=True).to_string()
@@ -462,8 +509,8 @@ def run(chk):
                     record(f)
                 if outs is not None and lit is not None:
                     corr['render'][0] += 1
-                    if lit != model_lit[(d == 'mysql', v)]:
-                        diverge('render', dict(dialect=d, position=pos, value=v, model=model_lit[(d == 'mysql', v)], impl=lit))
+                    if lit != model_lit[(path_codec(d), v)]:
+                        diverge('render', dict(dialect=d, position=pos, value=v, model=model_lit[(path_codec(d), v)], impl=lit))
         for pos in POSITIONS:
             f = probe_sqlite_engine(conn, pos, v)
             bump('engine/sqlite/%s' % ('fail' if f else 'ok'))
@@ -475,6 +522,29 @@ def run(chk):
                 bump('tostring/%s/%s' % (d, 'fail' if f else 'ok'))
                 if f:
                     record(f)
+    # every other way of constructing the renderer (dialect classes of all driver sub-dialects, classes from URLs,
+    # accepted name variants): the codec must be the one of the TARGET; reduced value set, two positions
+    from tools.harness import renderpaths
+    path_values = SPECIAL + list(lexh.strings_upto(2 if quick else 3))
+    seenp = set()
+    path_values = [v for v in path_values if not (v in seenp or seenp.add(v))]
+    rows = renderpaths.probe_all()
+    dist['paths/accepted'] = sum(1 for r in rows if r[1])
+    dist['paths/rejected'] = sum(1 for r in rows if not r[1])
+    for (label, accepted, dname, target, codec) in rows:
+        if not accepted or label in ('name:' + d for d in RENDER_DIALECTS):
+            continue
+        for v in path_values:
+            for pos in ('where', 'insert'):
+                chk.count(('render-path', label, pos, v))
+                lit, f = probe_render(label, pos, v)
+                bump('render-path/%s/%s' % (label.split(':')[0], 'fail' if f else 'ok'))
+                if f:
+                    record(f)
+                if outs is not None and lit is not None and v in seen:
+                    corr['render'][0] += 1
+                    if lit != model_lit[(path_codec(label), v)]:
+                        diverge('render', dict(dialect=label, position=pos, value=v, model=model_lit[(path_codec(label), v)], impl=lit))
     # several constants of different types but equal Python value in one statement, and in two statements rendered by the
     # SAME renderer instance; date / datetime (microseconds, tzinfo) / timedelta constants; all positions
     from mindsdb_sql.render.sqlalchemy_render import SqlalchemyRender
